@@ -2055,3 +2055,43 @@ func splitOffHelper(w *World, h *ssa.Function) bool {
 	}
 	return n == 1
 }
+
+// contradictoryAtoms: the conjunction contains the same comparison of the same
+// operands (the same SSA values, constants compared by value) once as true
+// and once as false. go/ssa does not share repeated sub-expressions, so a
+// condition written twice yields two values that path enumeration cannot
+// relate; paths deciding them differently are infeasible.
+func contradictoryAtoms(atoms []Atom) bool {
+	operand := func(v ssa.Value) string {
+		if v == nil {
+			return "-"
+		}
+		v = stripConvNoBind(v)
+		if cv, ok := v.(*ssa.Const); ok {
+			if cv.Value == nil {
+				return "const:nil"
+			}
+			return "const:" + cv.Value.ExactString()
+		}
+		return fmt.Sprintf("%p", v)
+	}
+	seen := map[string]bool{}
+	for _, a := range atoms {
+		if a.Kind != "eq" && a.Kind != "cmp" && a.Kind != "isnil" {
+			continue
+		}
+		k := a.Kind + "|" + a.Op.String() + "|" + operand(a.X) + "|" + operand(a.Y)
+		if prev, has := seen[k]; has && prev != a.Truth {
+			return true
+		}
+		seen[k] = a.Truth
+		if a.Kind == "eq" {
+			// symmetric form
+			k2 := a.Kind + "|" + a.Op.String() + "|" + operand(a.Y) + "|" + operand(a.X)
+			if prev, has := seen[k2]; has && prev != a.Truth {
+				return true
+			}
+		}
+	}
+	return false
+}
